@@ -805,3 +805,47 @@ def oracle_c18(line, case, stats, allc=None, lines=None):
     stats.update(MODE_STATS)
     cid = case['id']
     return [MODE_DIFFS[cid]] if cid in MODE_DIFFS else []
+
+# ------------------------------------------------------------------------------------------------
+# C17: the implementation log of this check comes from `harness capi` (extern "C" entry points).  prepare_c17 also runs
+# the same cases through the Rust API and records where the two differ in what the C API can observe.
+CAPI_DIFFS = {}
+CAPI_STATS = {}
+def prepare_c17(cases_path, runner, build):
+    import subprocess, os, tempfile
+    harness = os.path.join(build, 'harness-target', 'debug', 'lolverif-harness')
+    CAPI_DIFFS.clear(); CAPI_STATS.clear()
+    c_log = os.path.join(build, 'c17.capi.log'); r_log = os.path.join(build, 'c17.rust.log')
+    subprocess.run('%s capi < %s > %s' % (harness, cases_path, c_log), shell=True, timeout=3000)
+    subprocess.run('%s cases < %s > %s' % (harness, cases_path, r_log), shell=True, timeout=3000)
+    res, A, B = obslog.compare(c_log, r_log, ['capi'])
+    for cid in res['diff']['capi']:
+        a, b = obslog.p_capi(A[cid]), obslog.p_capi(B[cid])
+        k = next((i for i, (x, y) in enumerate(zip(a, b)) if x != y), min(len(a), len(b)))
+        CAPI_DIFFS[cid] = 'C API run differs from the Rust API run at call %d: C %r vs Rust %r' % (k, str(a[k] if k < len(a) else None)[:300], str(b[k] if k < len(b) else None)[:300])
+    for cid in res['missing_in_model']: CAPI_DIFFS[cid] = 'case missing from the Rust API run'
+    last = [l for l in open(c_log, errors='replace') if l.startswith('X capi-last-error-per-thread')]
+    CAPI_STATS['last_error_per_thread'] = (last[-1].strip().endswith('true') if last else None)
+    CAPI_STATS['c_vs_rust_cases'] = res['cases']
+    # memory safety of create/use/free histories: a sample of the cases under valgrind memcheck
+    if os.path.exists('/usr/bin/valgrind'):
+        k = 200 if os.environ.get('VERIF_CUR_TIER') == 'thorough' else 25
+        sample = os.path.join(build, 'c17.valgrind.cases')
+        lines = [l for l in open(cases_path) if l.startswith('L2 ')]
+        open(sample, 'w').write(''.join(lines[:k] + [l for l in lines if ' ks' in l[:8]][:k]))
+        r = subprocess.run('valgrind -q --error-exitcode=9 --leak-check=full --errors-for-leak-kinds=definite %s capi < %s > /dev/null' % (harness, sample),
+                           shell=True, capture_output=True, text=True, timeout=3000)
+        CAPI_STATS['valgrind_cases'] = 2 * k; CAPI_STATS['valgrind_exit'] = r.returncode
+        if r.returncode == 9:
+            first = open(sample).readline().split(' ')[1]
+            CAPI_DIFFS.setdefault(first, 'valgrind memcheck reports errors for the C API run of the sampled cases: ' + r.stderr[-400:].replace('\n', ' | '))
+    CAPI_STATS['streaming_handler_runs'] = sum(1 for l in open(c_log, errors='replace') if l.startswith('H ss '))
+def oracle_c17(line, case, stats, allc=None, lines=None):
+    stats.update(CAPI_STATS)
+    errs = [x[len('X capi-bad '):] for x in case.get('extra', []) if x.startswith('X capi-bad ')]
+    cid = case['id']
+    if cid in CAPI_DIFFS: errs.append(CAPI_DIFFS[cid])
+    if CAPI_STATS.get('last_error_per_thread') is False and not stats.get('_le_reported'):
+        stats['_le_reported'] = True; errs.append('an error recorded on one thread was visible to or cleared by another thread')
+    stats['unsupported_by_c_api'] = stats.get('unsupported_by_c_api', 0) + sum(1 for x in case.get('extra', []) if x.startswith('X capi-unsupported'))
+    return errs[:3]
